@@ -3,10 +3,11 @@
 HOOK_COMMITS = [
     "9ad3cc6",  # ByteRangeLockSet.VerifEntries
     "de55c5c",  # scheduler enter/leave tracer + VerifSnapshot
+    "1e05bf9",  # file pool quota counters / free sector count
 ]
 
 # harness packages compiled by bin/setup (those of the registered checks)
-SETUP_PACKAGES = ["brl", "sched", "buildclient"]
+SETUP_PACKAGES = ["brl", "sched", "buildclient", "filepool"]
 
 NOT_APPLICABLE = {}
 
@@ -45,4 +46,11 @@ CHECKS["C08"] = {
     "design_ref": "DESIGN.md section 3 (C08)",
     "note": _NOTE + " The scheduler is assumed to forget a worker one minute after the last next_synchronization_at (the code's own rule); executors honour cancellation.",
     "technique": "TLA+ model of Run() checked by TLC; spec->code replay of simulated behaviours and code->spec trace validation",
+}
+
+CHECKS["C15"] = {
+    "text": "FilePool.tla/FilePoolOps.tla: abstract sparse byte array per file over device sectors with stale contents, free set, per-file sector map, quota counters and a fault budget; TLC checks exhaustively on tiny configurations that the sector-map design denotes the abstract file, that no sector has two owners and that sectors and quota are conserved, also after an injected failure. The real block-device-backed pool + real bitmap allocator (behind a logging SectorAllocator) + quota pool are driven over an in-memory block device with fault injection by seeded random interleavings on 1-3 files, a Go-side exhaustive enumeration of call sequences of depth 3-4 over tiny domains (incl. single fault positions) and an allocator-only driver; TLC recomputes every reply (bytes, n, EOF, region offsets, refusals) and tracks sector ownership, quota and free-bit count; each trace ends with close-all and a full-capacity probe.",
+    "design_ref": "DESIGN.md section 4 (C15)",
+    "note": _NOTE + " Assumes hole sources not longer than the file they are created with, sequential calls per pool, small offsets.",
+    "technique": "TLA+ reference model + TLC validation of real-code traces (random, exhaustive small-domain enumeration, fault enumeration)",
 }
